@@ -91,11 +91,55 @@ fn run_pipeline(heap: &mut Heap, sources: mir::Sources, p: &Pipeline) -> mir::So
 // loop family
 // ------------------------------------------------------------------------------------------------
 
+/// Operand-order family: `K op INNER` and `INNER op K` for every comparison and arithmetic operator,
+/// INNER a run-time value plus/minus/times a literal (the shapes that `flexible_order_binary`
+/// mirrors and `merge_binary_expression` merges), for every K and every x of a small alphabet.
+fn operand_order_family() -> Vec<Prog> {
+  let ops = ["<", "<=", ">", ">=", "==", "!=", "+", "-", "*"];
+  let inners = [("x", "x"), ("x+1", "x + 1"), ("x-1", "x - 1"), ("x+3", "x + 3"), ("x-2", "x - 2"), ("x*2", "x * 2"), ("0-x", "0 - x"), ("1+x", "1 + x"), ("(x+1)-3", "x + 1 - 3"), ("(x-1)+2", "x - 1 + 2")];
+  let consts = [0i32, 1, -1, 3, -4];
+  let xs = [-5i32, -2, -1, 0, 1, 2, 3, 6];
+  let mut out = vec![];
+  for op in ops {
+    for (iname, inner) in inners {
+      for const_left in [false, true] {
+        let cmp = matches!(op, "<" | "<=" | ">" | ">=" | "==" | "!=");
+        let mut body = String::new();
+        for k in consts {
+          let kl = if k < 0 { format!("({k})") } else { k.to_string() };
+          // bind the inner value first as well as inline: both lowerings reach the merge
+          let e_inline = if const_left { format!("{kl} {op} ({inner})") } else { format!("({inner}) {op} {kl}") };
+          let e_bound = if const_left { format!("{kl} {op} t") } else { format!("t {op} {kl}") };
+          for e in [e_inline, e_bound] {
+            if cmp {
+              body.push_str(&format!("    Process.println(if {e} {{ \"T\" }} else {{ \"F\" }});\n"));
+            } else {
+              body.push_str(&format!("    Process.println(Str.fromInt({e}));\n"));
+            }
+          }
+        }
+        let mut text = format!("class Main {{\n  function probe(x: int): unit = {{\n    let t = {inner};\n{body}  }}\n  function main(): unit = {{\n");
+        for x in xs {
+          text.push_str(&format!("    Main.probe(\"{x}\".toInt());\n"));
+        }
+        text.push_str("    Main.probe(4)\n  }\n}\n");
+        out.push(Prog {
+          family: "operand-order",
+          shape: format!("op={op} inner={iname} constant-{}", if const_left { "left" } else { "right" }),
+          name: format!("operand order `{}`", if const_left { format!("K {op} ({inner})") } else { format!("({inner}) {op} K") }),
+          text,
+        });
+      }
+    }
+  }
+  out
+}
+
 fn loop_family(thorough: bool) -> Vec<Prog> {
   let guards: Vec<(&str, &str)> = vec![
     ("i<B", "I < B"), ("i<=B", "I <= B"), ("i>B", "I > B"), ("i>=B", "I >= B"), ("i!=B", "I != B"),
     ("B>i", "B > I"), ("B>=i", "B >= I"), ("B<i", "B < I"), ("B<=i", "B <= I"), ("B!=i", "B != I"),
-    ("i*2<B", "I * 2 < B"), ("i+1<B", "I + 1 < B"),
+    ("i*2<B", "I * 2 < B"), ("i+1<B", "I + 1 < B"), ("B>i-1", "B > I - 1"), ("B<=i+2", "B <= I + 2"),
   ];
   let steps: Vec<i64> = if thorough { vec![1, 2, 3, -1, -2, 1_000_000_000, -1_000_000_000] } else { vec![1, 2, -1, 1_000_000_000] };
   let updates: Vec<(&str, &str, bool)> = vec![
@@ -117,13 +161,19 @@ fn loop_family(thorough: bool) -> Vec<Prog> {
   let bounds: Vec<i64> = if thorough {
     vec![0, 5, -5, 2_000_000_000, -2_000_000_000, 2147483647, -2147483645]
   } else {
-    vec![5, -5, 2_000_000_000, 2147483647]
+    vec![5, -5, 2147483647]
   };
-  let upd_sel: Vec<usize> = (0..updates.len()).collect();
+  // quick leaves out three updates whose loop bodies duplicate the shape of a kept one
+  let upd_sel: Vec<usize> =
+    (0..updates.len()).filter(|i| thorough || !matches!(updates[*i].0, "acc+2" | "acc" | "println(i*3);acc")).collect();
   let res_sel: Vec<usize> = if thorough { (0..results.len()).collect() } else { vec![0, 3] };
   let wrap = |v: i64| -> i32 { v as i32 };
   let mut out = vec![];
   for (gname, guard) in &guards {
+    // quick: the constant-left `i +- c` guards are covered by the operand-order family
+    if !thorough && matches!(*gname, "B>i-1" | "B<=i+2") {
+      continue;
+    }
     for step in &steps {
       for ui in &upd_sel {
         let (uname, uexpr, prints) = updates[*ui];
@@ -136,7 +186,9 @@ fn loop_family(thorough: bool) -> Vec<Prog> {
                 continue;
               }
               // starts around the bound such that the loop runs a handful of iterations
-              let mut starts: Vec<i32> = vec![0, 1, -5];
+              // 1431655766 * 3 wraps to 2: a start whose derived value `i * 3` overflows although the
+              // loop itself never computes it (the guard fails at once)
+              let mut starts: Vec<i32> = vec![0, 1, -5, 1431655766, -1431655766];
               for k in [-3i64, -1, 0, 1, 3] {
                 starts.push(wrap(*b + k * *step));
                 starts.push(wrap(*b - k * *step * 2));
@@ -164,6 +216,8 @@ fn loop_family(thorough: bool) -> Vec<Prog> {
                       "B<=i" => Some(bb <= i),
                       "B!=i" => Some(bb != i),
                       "i*2<B" => i.checked_mul(2).map(|v| v < bb),
+                      "B>i-1" => i.checked_sub(1).map(|v| bb > v),
+                      "B<=i+2" => i.checked_add(2).map(|v| bb <= v),
                       _ => i.checked_add(1).map(|v| v < bb),
                     };
                     let Some(cond) = cond else { return false };
@@ -338,7 +392,7 @@ fn main() {
       pipelines.push(Pipeline::Config(b));
     }
   } else {
-    for b in [31u8, 0, 1, 2, 4, 8, 16, 30, 29, 27, 23, 15] {
+    for b in [31u8, 0, 4, 30, 29, 27, 23, 15] {
       pipelines.push(Pipeline::Config(b));
     }
   }
@@ -349,6 +403,7 @@ fn main() {
     }
   }
   let mut progs = loop_family(thorough);
+  progs.extend(operand_order_family());
   let fams = progfam::all_families(thorough);
   if thorough {
     progs.extend(fams);
@@ -360,6 +415,8 @@ fn main() {
       }
     }
   }
+  // heavier programs (longer text: they pull in std) first, so that the parallel tail is short
+  progs.sort_by_key(|p| std::cmp::Reverse(p.text.len()));
   if let Some(path) = run.replay.clone() {
     let text = std::fs::read_to_string(&path).unwrap_or_else(|e| machinery_failure(&format!("{e}")));
     let v: Value = serde_json::from_str(&text).unwrap_or_else(|e| machinery_failure(&format!("{e}")));
